@@ -565,3 +565,14 @@ func init() {
 	mut("C06", "apply extends the proof before applying the updated leaves", true, "proof-update-order|consensus.(*elementApplyUpdate).updateElementProof",
 		Edit{"consensus/merkle.go", "\tupdateProof(e, &eau.updated)\n\tif mh := mergeHeight(eau.numLeaves, e.LeafIndex); mh != len(e.MerkleProof) {\n\t\te.MerkleProof = append(e.MerkleProof, eau.treeGrowth[len(e.MerkleProof)]...)\n\t}\n", "\tif mh := mergeHeight(eau.numLeaves, e.LeafIndex); mh != len(e.MerkleProof) {\n\t\te.MerkleProof = append(e.MerkleProof, eau.treeGrowth[len(e.MerkleProof)]...)\n\t}\n\tupdateProof(e, &eau.updated)\n"})
 }
+
+func init() {
+	// ---- C07 (v1 storage-proof sibling order) ----
+	v := "consensus/validation.go"
+	mut("C07", "v1 storage-proof root treats the node at the subtree height as a right sibling", true, "proof-root-order|v1:bit=0,i=subtreeHeight",
+		Edit{v, "if leafIndex&(1<<i) != 0 || i >= subtreeHeight {", "if leafIndex&(1<<i) != 0 || i > subtreeHeight {"})
+	mut("C07", "v1 storage-proof root swaps the sibling order", true, "proof-root-order|v1:",
+		Edit{v, "\t\t\t\troot = blake2b.SumPair(h, root)\n\t\t\t} else {\n\t\t\t\troot = blake2b.SumPair(root, h)\n\t\t\t}", "\t\t\t\troot = blake2b.SumPair(root, h)\n\t\t\t} else {\n\t\t\t\troot = blake2b.SumPair(h, root)\n\t\t\t}"})
+	mut("C07", "(benign) v1 storage-proof root with the condition negated and branches swapped", false, "",
+		Edit{v, "\t\t\tif leafIndex&(1<<i) != 0 || i >= subtreeHeight {\n\t\t\t\troot = blake2b.SumPair(h, root)\n\t\t\t} else {\n\t\t\t\troot = blake2b.SumPair(root, h)\n\t\t\t}", "\t\t\tif leafIndex&(1<<i) == 0 && i < subtreeHeight {\n\t\t\t\troot = blake2b.SumPair(root, h)\n\t\t\t} else {\n\t\t\t\troot = blake2b.SumPair(h, root)\n\t\t\t}"})
+}
